@@ -353,6 +353,17 @@ func runC16Three(s c16tScen, c *ev.Case) (out *ev.Violation) {
 			w = watchFedPeers(nodes...)
 			nontrivial = true
 			c.Label("one_sided_member_flap")
+			// Node To still holds its old (complete) view of node i, so the views alone do not show when node i's NEW session
+			// towards To is up; events node i queues before that handshake are discarded by the clean start (they belong to
+			// no session). A fresh subscription on node i is the marker: once To shows it, the new stream has done its
+			// full synchronisation and everything emitted from now on is covered by the property.
+			marker := fmt.Sprintf("flapmark/%d", step)
+			pid++
+			if code, err := subscribeOne(subs[i], pid, subSpec{Filter: marker, QoS: 1}); err != nil || code != 1 {
+				return harnessErr("marker subscribe: %v %v", code, err)
+			}
+			dyn[i][marker] = true
+			local[i][marker]++
 			if v := converge(fmt.Sprintf("after the one-sided flap of step %d (node %d lost and re-found node %d)", step, i, op.To)); v != nil {
 				return v
 			}
